@@ -731,6 +731,11 @@ class Stats:
         return dict(self.__dict__)
 
 
+# wall-clock start of the solver call in progress (None between calls): read by the watchdog thread of symx.runner, which cancels a call
+# that ignores its own timeout
+CALL_STARTED = [None]
+
+
 class Engine:
     """one exploration of one harness function"""
 
@@ -778,7 +783,11 @@ class Engine:
         t0 = time.perf_counter()
         if self.linear_feasibility:
             extra = tuple(self._nlabs(e) for e in extra)
-        r = self.solver.check(*extra)
+        CALL_STARTED[0] = time.time()
+        try:
+            r = self.solver.check(*extra)
+        finally:
+            CALL_STARTED[0] = None
         self.stats.solver_s += time.perf_counter() - t0
         self.stats.queries += 1
         s = str(r)
